@@ -1195,6 +1195,8 @@ def writer_facts(tu, entry):
 
 
 FIELDS_OF_INTEREST = ("len", "next", "firstbucket")
+# the link a two-element state carries, per reader
+EXPECTED_LINK = {"_bucket_setstate": ("next",), "_set_setstate": ("next",), "_BTree_setstate": ("firstbucket",)}
 
 
 def reader_facts(tu, entry):
@@ -1227,6 +1229,12 @@ def reader_facts(tu, entry):
         for f in FIELDS_OF_INTEREST:
             if f in s.fields:
                 facts.add("%s=%s" % (f, show(s.fields[f])))
+        # what a path of a given arity leaves unset (a successor dropped on some path)
+        stored_something = bool(s.slots or s.events or any(f in s.fields for f in FIELDS_OF_INTEREST))
+        if stored_something and pre == "state of 2 element(s)":
+            for f in ("next", "firstbucket"):
+                if f in EXPECTED_LINK.get(entry, ()) and f not in s.fields:
+                    facts.add("%s left unset on some path" % f)
         if not s.slots and not s.events and not any(
                 f in s.fields and not (isinstance(s.fields[f], Aff) and s.fields[f].const() == 0)
                 and s.fields[f] != ("null",) for f in FIELDS_OF_INTEREST):
